@@ -52,12 +52,15 @@ type Contract struct {
 	IsIface bool
 	Obj     *types.Func
 	IfaceT  *types.Named
+	FuncT   types.Type
+	ParentKey, ParentRecv string
 	Params  []string // optional explicit parameter names: func (X).M(a, b)
 }
 
 type GhostDecl struct {
 	Name, Sort string
 	PkgPath    string
+	Default    string // value at freshly allocated references ("" = unknown)
 }
 
 type SpecDecl struct {
@@ -68,6 +71,14 @@ type SpecDecl struct {
 	Body    string // optional SMT body over ArgNames
 	Rec     bool
 	PkgPath string
+	GoRet   types.Type
+	retResolved bool
+}
+
+// ModelField: ghost[addr] := fn(value) whenever the field T.f of the object at addr is written
+type ModelField struct {
+	Type, Field, Ghost, Fn string
+	PkgPath                string
 }
 
 type AxiomDecl struct {
@@ -84,11 +95,12 @@ type ContractSet struct {
 	Ghosts []*GhostDecl
 	Specs  []*SpecDecl
 	Axioms []*AxiomDecl
+	Models []*ModelField
 	Files  []string
 }
 
-var reFunc = regexp.MustCompile(`^func\s+(?:\(([^)]*)\)\s*\.)?\s*([A-Za-z_][A-Za-z0-9_]*)\s*(?:\(([^)]*)\))?\s*$`)
-var reLabel = regexp.MustCompile(`^(requires|ensures|invariant|decreases|assume)(?:\[([^\]]*)\])?\s*(?:(\d+)\s*:)?\s*(.*)$`)
+var reFunc = regexp.MustCompile(`^func\s+(?:\(([^)]*)\)\s*\.)?\s*([A-Za-z_][A-Za-z0-9_$]*)\s*(?:\(([^)]*)\))?\s*$`)
+var reLabel = regexp.MustCompile(`^(requires|ensures|lensures|invariant|decreases|assume)(?:\[([^\]]*)\])?\s*(?:(\d+)\s*:)?\s*(.*)$`)
 
 type rawLine struct {
 	text string
@@ -160,7 +172,12 @@ func parseContractSource(cs *ContractSet, file, src, pkgPath string) error {
 			if len(parts) != 2 {
 				return fmt.Errorf("%s:%d: bad ghost", rl.file, rl.line)
 			}
-			cs.Ghosts = append(cs.Ghosts, &GhostDecl{Name: strings.TrimSpace(parts[0]), Sort: strings.TrimSpace(parts[1]), PkgPath: pkgPath})
+			gd := &GhostDecl{Name: strings.TrimSpace(parts[0]), Sort: strings.TrimSpace(parts[1]), PkgPath: pkgPath}
+			if i := strings.Index(gd.Sort, " default "); i >= 0 {
+				gd.Default = strings.TrimSpace(gd.Sort[i+9:])
+				gd.Sort = strings.TrimSpace(gd.Sort[:i])
+			}
+			cs.Ghosts = append(cs.Ghosts, gd)
 			cur = nil
 		case "spec":
 			sd, err := parseSpec(rest)
@@ -180,6 +197,42 @@ func parseContractSource(cs *ContractSet, file, src, pkgPath string) error {
 			cs.Axioms = append(cs.Axioms, ax)
 			lastAxiom = ax
 			cur = nil
+		case "modelfield":
+			// modelfield T.f ghost fn
+			f := strings.Fields(rest)
+			tf := strings.Split(f[0], ".")
+			if len(f) != 3 || len(tf) != 2 {
+				return fmt.Errorf("%s:%d: modelfield T.f ghost fn", rl.file, rl.line)
+			}
+			cs.Models = append(cs.Models, &ModelField{Type: tf[0], Field: tf[1], Ghost: f[1], Fn: f[2], PkgPath: pkgPath})
+			cur = nil
+		case "funcfield":
+			// funcfield T.f(params)
+			hdr := rest
+			params := ""
+			if i := strings.Index(hdr, "("); i >= 0 {
+				params = strings.TrimSuffix(strings.TrimSpace(hdr[i+1:]), ")")
+				hdr = strings.TrimSpace(hdr[:i])
+			}
+			cur = &Contract{PkgPath: pkgPath, Name: hdr, Inv: map[int][]Clause{}, Dec: map[int]Clause{}, Flags: map[string]string{"funcfield": "yes"}, Absorbs: map[string]string{}, File: rl.file, Line: rl.line}
+			if strings.TrimSpace(params) != "" {
+				for _, p := range strings.Split(params, ",") {
+					cur.Params = append(cur.Params, strings.TrimSpace(p))
+				}
+			}
+			cs.Funcs = append(cs.Funcs, cur)
+		case "functype":
+			m := reFunc.FindStringSubmatch("func " + rest)
+			if m == nil {
+				return fmt.Errorf("%s:%d: bad functype header %q", rl.file, rl.line, t)
+			}
+			cur = &Contract{PkgPath: pkgPath, Name: m[2], Inv: map[int][]Clause{}, Dec: map[int]Clause{}, Flags: map[string]string{"functype": "yes"}, Absorbs: map[string]string{}, File: rl.file, Line: rl.line}
+			if strings.TrimSpace(m[3]) != "" {
+				for _, p := range strings.Split(m[3], ",") {
+					cur.Params = append(cur.Params, strings.TrimSpace(p))
+				}
+			}
+			cs.Funcs = append(cs.Funcs, cur)
 		case "func":
 			m := reFunc.FindStringSubmatch(t)
 			if m == nil {
@@ -222,7 +275,7 @@ func parseContractSource(cs *ContractSet, file, src, pkgPath string) error {
 					why = strings.TrimSpace(parts[1])
 				}
 				cur.Absorbs[strings.TrimSpace(parts[0])] = why
-			case "requires", "ensures", "invariant", "decreases", "assume":
+			case "requires", "ensures", "lensures", "invariant", "decreases", "assume":
 				m := reLabel.FindStringSubmatch(t)
 				if m == nil {
 					return fmt.Errorf("%s:%d: bad clause", rl.file, rl.line)
@@ -235,7 +288,7 @@ func parseContractSource(cs *ContractSet, file, src, pkgPath string) error {
 				case "requires", "assume":
 					cur.Req = append(cur.Req, cl)
 					lastClause = &cur.Req[len(cur.Req)-1]
-				case "ensures":
+				case "ensures", "lensures":
 					cur.Ens = append(cur.Ens, cl)
 					lastClause = &cur.Ens[len(cur.Ens)-1]
 				case "invariant":
